@@ -122,8 +122,16 @@ func VerifHarness_C05_StringBooleanPairs() {
 
 // C05-E1 quantities compare only within one unit, otherwise the result is empty.
 func VerifHarness_C05_QuantityPairs() {
-	units := []string{"mg", "kg", "days", ""}
-	ua, ub := units[verifrt.Choose("ua", 4)], units[verifrt.Choose("ub", 4)]
+	// UCUM codes are case sensitive ('mg' milligram, 'Mg' megagram): a unit is the same unit only as the same string;
+	// besides the menu, both units are arbitrary two-byte strings
+	unit := func(label string) string {
+		units := []string{"mg", "kg", "days", "", "Mg", "MG"}
+		if k := verifrt.Choose(label, len(units)+1); k < len(units) {
+			return units[k]
+		}
+		return verifrt.NondetStringN(label+".s", 2)
+	}
+	ua, ub := unit("ua"), unit("ub")
 	va, vb := verifrt.NondetIntRange("va", -1000, 1000), verifrt.NondetIntRange("vb", -1000, 1000)
 	a := Quantity{Decimal(verifrt.NondetDecimal("da", 1)), ua}
 	b := Quantity{Decimal(verifrt.NondetDecimal("db", 1)), ub}
